@@ -22,7 +22,8 @@ MANIFEST = {
             'rules, inputs are pairwise disjoint, nothing failing either test was admitted, after a head change the pool '
             '(as a set) equals the still-valid part of the old pool, and a valid, new, non-conflicting submission was admitted.'
             " Blocks also arrive by the bulk-download route; a rejected relay's fall-back to the last validated state counts as a head change; transactions the node verified earlier in the run are offered again with signatures that do not verify once their inputs are unspent again."
-            ' Competing branches also arrive by bulk download.',
+            ' Competing branches also arrive by bulk download.'
+            ' Submitted transactions include valid ones a few bytes larger than a block (never admitted: they could never be mined).',
     'note': 'Trusted: reference rules and ledger replay; Bots; simulated network/clock. Pool order is not part of the statement.',
 }
 
